@@ -836,7 +836,7 @@ private:
           {
             transit_event.logger_base->backtrace_storage->process(
               [this](TransitEvent const& te, std::string_view thread_id, std::string_view thread_name)
-              { _dispatch_transit_event_to_sinks(te, thread_id, thread_name); });
+              { _dispatch_backtrace_transit_event(te, thread_id, thread_name); });
           }
         }
       }
@@ -880,7 +880,7 @@ private:
         // process all records in backtrace for this logger and log them
         transit_event.logger_base->backtrace_storage->process(
           [this](TransitEvent const& te, std::string_view thread_id, std::string_view thread_name)
-          { _dispatch_transit_event_to_sinks(te, thread_id, thread_name); });
+          { _dispatch_backtrace_transit_event(te, thread_id, thread_name); });
       }
     }
     else if (transit_event.macro_metadata->event() == MacroMetadata::Event::Flush)
@@ -895,6 +895,24 @@ private:
 
       // We defer notifying the caller until after this function completes.
     }
+  }
+
+  /**
+   * Writes a statement that was held back in the backtrace storage. A sink that throws loses that
+   * statement only: the error is reported and the replay goes on with the next stored statement,
+   * so that the storage is cleared after every statement had its turn
+   */
+  void _dispatch_backtrace_transit_event(TransitEvent const& transit_event, std::string_view thread_id,
+                                         std::string_view thread_name)
+  {
+    QUILL_TRY { _dispatch_transit_event_to_sinks(transit_event, thread_id, thread_name); }
+#if !defined(QUILL_NO_EXCEPTIONS)
+    QUILL_CATCH(std::exception const& e) { _options.error_notifier(e.what()); }
+    QUILL_CATCH_ALL()
+    {
+      _options.error_notifier(std::string{"Caught unhandled exception."});
+    } // clang-format on
+#endif
   }
 
   /**
